@@ -113,6 +113,9 @@ def build_configs(ctx):
         m = schema_model.load(p)
         cfgs.append((f, load_schema(p), m, ""))
         cfgs.append((f + "@tl:", load_schema(p, schema_namespace="tl:"), m, "tl:"))
+        if f == files[0]:
+            # a prefix written with capitals is the prefix as written
+            cfgs.append((f + "@Tl:", load_schema(p, schema_namespace="Tl:"), m, "Tl:"))
     # merged multi-library load (same standard partner)
     m1 = schema_model.load(os.path.join(core.SCHEMA_DATA, "HED_testlib_2.0.0.xml"))
     m2 = schema_model.load(os.path.join(core.SCHEMA_DATA, "HED_score_1.1.0.xml"))
